@@ -36,11 +36,14 @@ SCENARIOS = {
     "bytes": ["mk-bytes-3/ident", "mk-bytes-3/ident/cat-q"],
     "list": ["mk-list-2/push-a", "mk-list-2/push-a/push-b"],
     "frame": ["mk-df-2/dfcol-c", "mk-df-2/dfcol-c/ident"],
+    # a warm entry read by one task while another task's volatile evaluation (extra parameters) removes it
+    "warm_read_vs_remove": {"warm": ["lit-a/cat-x"], "tasks": ["lit-a/cat-x/cat-y", {"q": "lit-a/cat-x", "extra": {"nope": "1"}}]},
+    "warm_read_vs_remove_list": {"warm": ["mk-list-2/push-a"], "tasks": ["mk-list-2/push-a/push-b", {"q": "mk-list-2/push-a", "extra": {"nope": "1"}}]},
     "volatile_mix": ["lit-a/vol/cat-x", "lit-a/cat-x"],
     "failing_mix": ["lit-a/boom", "lit-a/cat-x"],
 }
 QUICK_SCENARIOS = ["same_query", "query_and_extension", "shared_prefix", "link_subquery", "three_tasks", "bytes", "dictionary",
-                   "three_tasks_same_list", "three_tasks_same_text"]
+                   "three_tasks_same_list", "three_tasks_same_text", "warm_read_vs_remove", "warm_read_vs_remove_list"]
 
 
 def shards(tier, seed):
@@ -59,7 +62,14 @@ def shards(tier, seed):
     return out
 
 
-def run_scenario(env, kind, queries, scratch, bound, budget, viol, stats, only_schedule=None, via="evaluate"):
+def run_scenario(env, kind, scenario, scratch, bound, budget, viol, stats, only_schedule=None, via="evaluate"):
+    warm = []
+    if isinstance(scenario, dict):
+        warm = list(scenario.get("warm", []))
+        scenario = scenario["tasks"]
+    tasks = [t if isinstance(t, dict) else {"q": t} for t in scenario]
+    queries = [t["q"] for t in tasks]
+    extras = [t.get("extra") for t in tasks]
     import hashlib
     import os
     import shutil
@@ -83,7 +93,7 @@ def run_scenario(env, kind, queries, scratch, bound, budget, viol, stats, only_s
         set_cache(NoCache())
         refs = [served(q) for q in queries]
     else:
-        refs = [env.reference(q) for q in queries]
+        refs = [env.reference(q, None, x) for q, x in zip(queries, extras)]
     file_backed = kind in ("file", "xor", "fernet", "store_file_nested", "store_file_flat", "memory+file")
     ref = [None]
     interleavings = set()
@@ -98,6 +108,11 @@ def run_scenario(env, kind, queries, scratch, bound, budget, viol, stats, only_s
         built = cachecfg.build(kind, d)
         sc = sched.SchedCache(built.cache, ref)
         set_cache(sc)
+        for wq in warm:   # sequential warm-up, no scheduling
+            try:
+                Context().evaluate(wq)
+            except Exception:
+                pass
         s = sched.Scheduler(len(queries), schedule=prefix, policy=policy_box[0])
         ref[0] = s
         if file_backed:
@@ -108,13 +123,13 @@ def run_scenario(env, kind, queries, scratch, bound, budget, viol, stats, only_s
             crash._S["reads"] = True
             crash._S["active"] = True
 
-        def mk(q):
+        def mk(q, extra=None):
             if via == "serve":
                 return lambda: served(q)
 
             def f():
                 try:
-                    st = Context().evaluate(q)
+                    st = Context().evaluate(q, extra_parameters=extra)
                     return E.outcome_of(st, None)
                 except Exception as e:
                     return E.outcome_of(None, e)
@@ -122,7 +137,7 @@ def run_scenario(env, kind, queries, scratch, bound, budget, viol, stats, only_s
 
         vocab.use_log([])
         try:
-            s.run([mk(q) for q in queries])
+            s.run([mk(q, x) for q, x in zip(queries, extras)])
         finally:
             crash._S["active"] = False
             crash._S["on_event"] = None
@@ -155,7 +170,7 @@ def run_scenario(env, kind, queries, scratch, bound, budget, viol, stats, only_s
         # randomised schedules biased to switch at commit points (renames, writes, stores): beyond the DFS budget
         import random as _random
 
-        rnd = _random.Random("%s/%s/%s" % (kind, stats["scenario"], via))
+        rnd = _random.Random("%s/%s/%s/%s" % (stats.get("seed", 0), kind, stats["scenario"], via))
         critical = ("fs:rename", "fs:write", "fs:open_write", "fs:open_read", "fs:remove", "store", "store_metadata", "remove")
 
         def policy(enabled, last, pend):
@@ -210,7 +225,7 @@ def run_shard(spec):
     env = E.Env()
     scratch = spec["scratch"]
     violations = {}
-    stats = {"evaluations": 0, "nontrivial": set(), "interleavings": set(), "scenario": ""}
+    stats = {"evaluations": 0, "nontrivial": set(), "interleavings": set(), "scenario": "", "seed": spec.get("seed", 0)}
 
     def viol(what, detail, w):
         sig = "C12|%s" % what
